@@ -114,7 +114,14 @@ fn exec<F: Flavour>(w: &mut World<F>, op: &TOp) -> Obs {
         }
         TOp::Remove { k } => Obs::OptKey(F::g_remove(w.graph.as_mut().unwrap(), *k).map(|n| F::key(&n))),
         TOp::Get { k } => Obs::OptKey(F::g_get(w.graph.as_ref().unwrap(), *k).map(|n| F::key(&n))),
-        TOp::Index { k } => Obs::Num(F::key(&F::g_index(w.graph.as_ref().unwrap(), *k))),
+        TOp::Index { k } => {
+            // indexing a key that is not a member panics by contract (like HashMap): not called
+            if F::g_contains(w.graph.as_ref().unwrap(), *k) {
+                Obs::Num(F::key(&F::g_index(w.graph.as_ref().unwrap(), *k)))
+            } else {
+                Obs::Unit
+            }
+        }
         TOp::Contains { k } => Obs::Bool(F::g_contains(w.graph.as_ref().unwrap(), *k)),
         TOp::Len => Obs::Num(F::g_len(w.graph.as_ref().unwrap())),
         TOp::IsEmpty => Obs::Bool(F::g_is_empty(w.graph.as_ref().unwrap())),
@@ -241,7 +248,10 @@ fn log_of<F: Flavour>(sc: &TwinSc, stats: &mut Stats) -> Vec<Obs> {
     let mut world = World::<F>::new(&sc.prios, true);
     world.seed_edges(&sc.initial);
     let mut log = Vec::with_capacity(sc.ops.len());
-    for op in &sc.ops {
+    for (i, op) in sc.ops.iter().enumerate() {
+        // both sides start every call from the same point of the hash-seed sequence, however
+        // many hash containers the previous calls created on either side
+        hashseam::set_seed(crate::rng::mix(sc.hash_seed ^ (i as u64 + 1)));
         solo.set_budget(500_000);
         let o = match caught(|| exec::<F>(&mut world, op)) {
             Caught::Ok(o) => o,
